@@ -79,6 +79,42 @@ def edited_designs():
                     yield (f"edited/{how}/{first}->{second}", mk(how, first, second))
 
 
+def order_designs():
+    """port-reference chains ending on a slice / concatenation of ANOTHER instance's port, with the instances declared in
+    every order (the resolver walks instances in declaration order: the driver may come first or last)"""
+    import hdl21 as h
+    import itertools as it
+
+    def mk(order, leaves):
+        def b():
+            if leaves:
+                Drv = h.ExternalModule(name="OD", port_list=[h.Output(name="q", width=4), h.Output(name="r")], desc="", domain="od")()
+                Rcv = h.ExternalModule(name="OR", port_list=[h.Input(name="d"), h.Input(name="w", width=2)], desc="", domain="od")()
+            else:
+                Drv = h.Module(name="ODm")
+                Drv.q, Drv.r = h.Output(width=4), h.Output()
+                Drv.x = h.R(r=1)(p=Drv.r, n=Drv.q[0])
+                Rcv = h.Module(name="ORm")
+                Rcv.d, Rcv.w = h.Input(), h.Input(width=2)
+                Rcv.x = h.R(r=2)(p=Rcv.d, n=Rcv.w[1])
+            m = h.Module(name="Ordered")
+            insts = {"drv": Drv(), "r1": Rcv(), "r2": Rcv(), "r3": Rcv()}
+            for n in order:
+                m.add(insts[n], name=n)
+            m.r1.d = m.drv.q[0]
+            m.r1.w = h.Concat(m.drv.r, m.drv.q[3])
+            m.r2.d = m.r1.d
+            m.r2.w = m.r1.w
+            m.r3.d = m.r2.d
+            m.r3.w = m.drv.q[1:3]
+            return m
+        return b
+    for order in it.permutations(("drv", "r1", "r2", "r3")):
+        if order.index("r1") < order.index("r2") or order[0] == "drv" or order[-1] == "drv":
+            for leaves in (True, False):
+                yield (f"ordered/{'-'.join(order)}/{'ext' if leaves else 'mod'}", mk(order, leaves))
+
+
 def probe_netlister_convention():
     """The assumed contract on the dependency: vlsirtools writes buses MSB first and concat parts in listed order."""
     import io
@@ -144,9 +180,9 @@ def run(ctx):
             ctx.checker_errors.append(f"array rule: only {len(obs)} obligations generated")
         ctx.discharge(obs, c_arrays.KEY + " [per-element loop body]", info)
     ctx.run_bounded(
-        "to_proto-vs-meaning", __import__("itertools").chain(design_family(ctx.tier, ctx.seed), edited_designs()),
+        "to_proto-vs-meaning", __import__("itertools").chain(design_family(ctx.tier, ctx.seed), edited_designs(), order_designs()),
         lambda c: check_design(c),
-        rule=RULE + "; plus 60 designs written in several steps (a port re-connected by each of the five operations)", bound="depth<=3, widths<=4 (8 thorough), <=4 (6) instances per module",
+        rule=RULE + "; plus 60 designs written in several steps (a port re-connected by each of the five operations) and 40 declaration orders of a reference chain ending on slices / concatenations of a driver's ports", bound="depth<=3, widths<=4 (8 thorough), <=4 (6) instances per module",
         key_of=lambda c: c[0], nontrivial=lambda c: nontrivial(c[0]))
     return INFO
 
@@ -155,7 +191,7 @@ def replay(payload):
     from rtc.designs import designs
     want = (payload.get("input") or {}).get("design")
     if want:
-        for desc, b in edited_designs():
+        for desc, b in list(edited_designs()) + list(order_designs()):
             if desc == want:
                 r = check_design((desc, b))
                 print("replay:", r)
